@@ -112,8 +112,13 @@ func stringToDFA(value string) *auto.DFA {
 	d := auto.NewDFA(start, nil)
 
 	curr, next := start, start+1
-	for _, r := range value {
-		d.Add(curr, auto.Symbol(r), next)
+	for runes, i := []rune(value), 0; i < len(runes); i++ {
+		// A backslash escapes the next character (the value is the text between the quotation marks).
+		if runes[i] == '\\' && i+1 < len(runes) {
+			i++
+		}
+
+		d.Add(curr, auto.Symbol(runes[i]), next)
 		curr, next = next, next+1
 	}
 
